@@ -186,6 +186,9 @@ pub fn record(output: &str) {
         let span = if k % 4 == 1 { 6.3 } else { 3.0 };
         let mut q: Joints = std::array::from_fn(|_| r.gen_range(-span..span));
         if k % 4 == 3 { q = last_q; }
+        // (one vector in sixteen is exactly wrist singular: the Jacobian loses rank, nothing is demanded of the
+        //  velocities but an answer or an error value)
+        if k % 16 == 5 { q[4] = p.offsets[4] * p.sign_corrections[4] as f64; }
         // robots with limits, standing exactly at (or within half a step of) an upper limit
         let limits = if k % 5 == 2 && k % 4 != 3 {
             let to: Joints = std::array::from_fn(|i| q[i] + r.gen_range(0.3..1.0));
